@@ -47,6 +47,10 @@ claimed = {
  "C19": dict(text="Per configuration family the same (or a second) symbolic request is served again on the same container and compared with the first answer / a fresh twin; a frame monitor in the "
              "executor classifies every store made while serving by the allocation epoch of its target and reports stores to state that outlives the request; trace on/off must agree; values "
              "handed to one handler are scribbled on and must not reach the next.", design="5 (C19), 2.7"),
+ "C12": dict(text="Two threads - one request through Dispatch or ServeHTTP, one of Add/Remove/Route/RemoveRoute - are executed in recording mode (loads/stores of pre-existing objects and RWMutex "
+             "operations become events); per pair of conflicting accesses the solver decides over all schedules whether they can be adjacent (data race), and one query decides whether a state "
+             "with a thread blocked forever is reachable (incl. a pending writer blocking new readers). Value-level snapshot semantics is not claimed (see level_note).", design="5 (C12), 2.8",
+             note="Each thread is executed alone from the pre-mutation state, so its control flow does not react to the other thread's writes; more threads/operations, the Go memory model, scheduler fairness and re-entrant user code are outside the claim."),
  "C13": dict(text="Concurrent half: the real BoundedCachedCompressors code runs per thread in recording mode (channel operations become events with symbolic results); for every capacity, initial "
              "fill, object kind and 2-3 threads one solver query over 8-bit timestamps and executed-flags decides whether any schedule reaches a state in which a thread is blocked forever in "
              "Acquire*/Release*. Sequential half: a ledger provider wrapped around the real providers proves on every path of the C07 harness and of two consecutive ReadEntity calls that each "
